@@ -389,6 +389,71 @@ def rpartsRef (connTopic : String) (topics : String) (cluster : String) : Option
       some (dash (",".intercalate (strSort ps)))
   | _ => none
 
+/-! ### F-level mapping ops (stub RoundTripper): the models of Model/Mappings.lean executed on arbitrary responses -/
+
+def showUPart (p : KV.Mappings.UPartition) : String :=
+  s!"{p.id}={p.leader.id}={p.error}={showIds p.replicas}={showIds p.isr}"
+
+def fmetaModel (m : KV.Routing.MResponse) : String :=
+  let u := KV.Mappings.clientMetadata m
+  let bs := dash (",".intercalate (u.brokers.map fun b => toString b.id))
+  let ts := dash ("|".intercalate (u.topics.map fun t =>
+    s!"{t.name}:{t.error}:{if t.internal then 1 else 0}:{dash (",".intercalate (t.partitions.map showUPart))}"))
+  s!"{u.controller.id}/{bs}/{ts}"
+
+/-- reference: every id (controller when listed, leader, replicas, ISR), error code and flag of the answer is reported
+as is, in the answer's order -/
+def fmetaRef (m : KV.Routing.MResponse) : String :=
+  let bs := dash (",".intercalate (m.brokers.map fun b => toString b.nodeID))
+  let ctrl := if m.brokers.any (·.nodeID == m.controller) then m.controller else 0
+  let ids (l : List Int) : String := if l.isEmpty then "-" else ".".intercalate (l.map toString)
+  let ts := dash ("|".intercalate (m.topics.map fun t =>
+    s!"{t.name}:{t.error}:{if t.internal then 1 else 0}:{dash (",".intercalate (t.partitions.map fun p =>
+      s!"{p.index}={p.leader}={p.error}={ids p.replicas}={ids p.isr}"))}"))
+  s!"{ctrl}/{bs}/{ts}"
+
+def parseOF (s : String) : Option KV.Mappings.OFResponse :=
+  match s.splitOn ";" with
+  | [e, ts] => do
+    let e ← e.toInt?
+    let ts ← (splitD ts "|").mapM fun (t : String) =>
+      match t.splitOn ":" with
+      | [n, ps] => do
+        let ps ← (splitD ps ",").mapM fun (p : String) =>
+          match p.splitOn "/" with
+          | [i, o, md, er] => do let i ← i.toInt?; let o ← o.toInt?; let er ← er.toInt?; pure (⟨i, o, md, er⟩ : KV.Mappings.OFPart)
+          | _ => none
+        pure (n, ps)
+      | _ => none
+    pure ⟨0, ts, e⟩
+  | _ => none
+
+def fofetchModel (r : KV.Mappings.OFResponse) : String :=
+  let u := KV.Mappings.offsetFetchResponse r
+  let ts := sortBy (fun a b => a.1 < b.1) u.topics
+  s!"{u.error};{dash ("|".intercalate (ts.map fun (n, ps) =>
+    s!"{n}:{dash (",".intercalate (ps.map fun p => s!"{p.partition}/{p.committed}/{p.metadata}/{p.error}"))}"))}"
+
+def parseOC (s : String) : Option (List (String × List (Int × Int))) :=
+  (splitD s "|").mapM fun (t : String) =>
+    match t.splitOn ":" with
+    | [n, ps] => do
+      let ps ← (splitD ps ",").mapM fun (p : String) =>
+        match p.splitOn "/" with
+        | [i, e] => do let i ← i.toInt?; let e ← e.toInt?; pure (i, e)
+        | _ => none
+      pure (n, ps)
+    | _ => none
+
+def focommitModel (r : List (String × List (Int × Int))) : String :=
+  let ts := sortBy (fun a b => a.1 < b.1) (KV.Mappings.offsetCommitResponse r)
+  dash ("|".intercalate (ts.map fun (n, ps) => s!"{n}:{dash (",".intercalate (ps.map fun (p, e) => s!"{p}/{e}"))}"))
+
+/-- reference for the two group mappings: per topic name the LAST listed entry (a Go map), values untouched -/
+def lastPerName {α : Type} (ts : List (String × α)) : List (String × α) :=
+  let names := sortBy (fun a b => a < b) ((ts.map (·.1)).eraseDups)
+  names.filterMap fun n => (ts.reverse.find? (·.1 == n))
+
 /-! ### dispatcher -/
 
 def step (line : String) : String :=
@@ -435,6 +500,24 @@ def step (line : String) : String :=
     | ["meta", f, c] =>
       match metaRef f c with
       | some want => answer want (impl == want)
+      | none => "bad-op"
+    | ["fmeta", c] =>
+      match parseCluster c with
+      | some m => answer (fmetaModel m) (impl == fmetaRef m)
+      | none => "bad-op"
+    | ["fofetch", r] =>
+      match parseOF r with
+      | some r =>
+        let want := s!"{r.error};{dash ("|".intercalate ((lastPerName r.topics).map fun (n, ps) =>
+          s!"{n}:{dash (",".intercalate (ps.map fun p => s!"{p.index}/{p.offset}/{p.metadata}/{p.error}"))}"))}"
+        answer (fofetchModel r) (impl == want)
+      | none => "bad-op"
+    | ["focommit", r] =>
+      match parseOC r with
+      | some r =>
+        let want := dash ("|".intercalate ((lastPerName r).map fun (n, ps) =>
+          s!"{n}:{dash (",".intercalate (ps.map fun (p, e) => s!"{p}/{e}"))}"))
+        answer (focommitModel r) (impl == want)
       | none => "bad-op"
     | ["rparts", ct, ts, c] =>
       let connTopic := if ct == "-" then "" else ct
